@@ -224,6 +224,28 @@ def rule_cli_guard(ctx, R):
         ctx.check(ok, "CLI-BUF", b, "offset-buffer-length", b.span,
                   "a buffer indexed by Match::start()/end() (byte offsets up to line.len()) must be created with line.len() + 1 slots "
                   "(byte length, not a character count); created as %s" % [show(t) for t in defs])
+    # CLI-HL: +1 at every match start, -1 at every match end, for every match pulled from the no-suffix overlapping search
+    for buf in bufs:
+        sts = [x for x in S.stores if x["tgt"][0] == "elem" and core.same(x["tgt"][1], buf)]
+        def mcall(name):
+            return lambda t, e: t[0] == "call" and isinstance(t[1], str) and t[1] == "daachorse::Match::" + name and \
+                _search_iter_on_line(t[2][0], line, pma) == "find_overlapping_no_suffix_iter"
+        inc = [x for x in sts if m(mcall("start"), x["tgt"][2]) and m(B("Add", E(ANY, mcall("start")), K(1)), x["val"])]
+        dec = [x for x in sts if m(mcall("end"), x["tgt"][2]) and m(B("Sub", E(ANY, mcall("end")), K(1)), x["val"])]
+        ctx.check(len(inc) == 1 and len(dec) == 1 and len(sts) == 2, "CLI-HL", b, "depth-deltas", b.span,
+                  "highlighting must add 1 at start() and subtract 1 at end() of every match of find_overlapping_no_suffix_iter(line); stores %s"
+                  % [(show(x["tgt"])[:80], show(x["val"])[:80]) for x in sts])
+        if len(inc) == 1 and len(dec) == 1:
+            pulls = [x for x in S.calls if core.callee_base(x["key"]) == "core::iter::Iterator::next" and
+                     _search_iter_on_line(x["args"][0], line, pma) == "find_overlapping_no_suffix_iter"]
+            okp = len(pulls) == 1
+            if okp:
+                sw = switches_on(root, lambda d: d[0] == "discr" and d[1][0] == "call" and d[1][3] == (b.path, pulls[0]["bb"]))
+                okp = len(sw) == 1
+                if okp:
+                    some, none = opt_arms(sw[0][1])
+                    okp = all(pulls[0]["bb"] not in (b.reach(some, avoid_blocks=[x["bb"]]) - {some} if some != x["bb"] else set()) for x in inc + dec)
+            ctx.check(okp, "CLI-HL", b, "every-match-counted", b.span, "both deltas are applied for every match pulled (no match skipped)")
     # both search calls are on the same (pma, line)
     for s in S.calls:
         if s["key"].startswith("daachorse::") and len(s["args"]) == 2:
@@ -280,3 +302,152 @@ def rule_cli_pats(ctx, R):
     fo = [s for s in S.calls if s["name"] == "find_and_output"]
     ctx.check(len(fo) >= 2 and all(b.in_cycle(s["bb"]) for s in fo), "CLI-PATS", b, "every-line-searched", b.span,
               "find_and_output must be called in the per-line loops (stdin and files)")
+
+
+def _lines_enumerate(t, which):
+    """t == ((next(enumerate(lines(R))) as Some).0).<which> possibly behind a `?`/Ok payload; returns the pull site or None"""
+    x = t
+    # peel payloads (`line?` or `match line { Ok(l) => l }`)
+    for _ in range(3):
+        if x[0] == "payload":
+            x = x[1]
+        elif x[0] == "field" and x[3] == "0" and x[1][0] == "variant" and x[1][2] in ("Ok", "Continue"):
+            x = x[1][1]
+        else:
+            break
+    if x[0] == "field" and x[2] == "(tuple)" and x[3] == which and x[1][0] == "payload":
+        c = x[1][1]
+        if c[0] == "call" and core.callee_base(c[1]) == "core::iter::Iterator::next":
+            src = c[2][0]
+            if src[0] == "call" and core.callee_base(src[1]) == "core::iter::Iterator::enumerate" and src[2][0][0] == "call" and \
+                    src[2][0][1].endswith("BufRead::lines"):
+                return c[3]
+    return None
+
+
+def rule_cli_lines(ctx, R):
+    """CLI-LINES / CLI-FLAGS: every input line is numbered by its position in the reader (enumerate directly on lines());
+    prefixes are governed by the flags only; prefix order is filename, line number, line."""
+    cli = ctx.cli
+    if cli is None:
+        return
+    mains = [b for b in cli.bodies.values() if b.name == "main" and not b.is_closure]
+    fo = [b for b in cli.bodies.values() if b.name == "find_and_output" and not b.is_closure]
+    if len(mains) != 1 or len(fo) != 1:
+        return
+    b = mains[0]
+    S = Sites(cli, b)
+    pn = {fo[0].local_names.get(i): i - 1 for i in range(1, fo[0].arg_count + 1)}   # argument positions by name
+    need = ("pma", "line", "filename", "line_no", "color", "stream")
+    if not all(n in pn for n in need):
+        ctx.missing("CLI-LINES", "find_and_output parameters %s" % (need,))
+        return
+    calls = [s for s in S.calls if s["name"] == "find_and_output"]
+    for s in calls:
+        loc = b.loc(s["bb"])
+        line = s["args"][pn["line"]]
+        site = _lines_enumerate(line, "1")
+        ctx.check(site is not None, "CLI-LINES", b, "line-from-enumerated-lines", loc,
+                  "the searched line must be the item of `reader.lines().enumerate()` (no filtering/skipping between lines() and enumerate()); found %s" % show(line)[:200])
+        ln = s["args"][pn["line_no"]]
+        okn = True
+        seen_some = seen_none = False
+        for x in members(ln):
+            if x[0] == "agg" and x[2] == "None":
+                seen_none = True
+            elif x[0] == "agg" and x[2] == "Some":
+                seen_some = True
+                idx = dict(x[3])["0"]
+                okn = okn and _lines_enumerate(idx, "0") == site and site is not None
+            else:
+                okn = False
+        ctx.check(okn and seen_some and seen_none, "CLI-LINES", b, "line-number-is-enumerate-index", loc,
+                  "the line number must be Some(enumerate index of that same line) or None; found %s" % show(ln)[:200])
+        # Some exactly under args.line_number
+        sw = switches_on(S.root, lambda d: d[0] == "field" and d[3] == "line_number")
+        somes = [bi for bi, si, st in b.stmts() if st["k"] == "assign" and st["rv"]["k"] == "aggregate" and st["rv"].get("variant") == "Some"
+                 and _lines_enumerate(pnorm(S.root.T.rvalue(st["rv"]))[3][0][1], "0") == site and site is not None]
+        okf = bool(somes) and all(any(b.edge_guards((sbi, bool_arms(stj)[0]), bi) for sbi, stj, d in sw) for bi in somes)
+        ctx.check(okf, "CLI-FLAGS", b, "line-number-iff-flag", loc, "line numbers are passed exactly when -n/--line-number is set")
+        ctx.check(m(F(ANY, "color"), s["args"][pn["color"]]), "CLI-FLAGS", b, "color-from-args", loc, "the colour mode passed on is args.color")
+        fnm = s["args"][pn["filename"]]
+        if fnm[0] == "agg" and fnm[2] == "None":
+            ctx.ok("CLI-FLAGS", b, "stdin-no-filename", loc, "stdin lines carry no file name")
+        else:
+            okc = fnm[0] == "call" and core.callee_base(fnm[1]) == "core::option::Option::and_then" and fnm[2][1][0] == "closure"
+            if okc:
+                cr = S.fv.closure_ret(fnm[2][1][1])
+                ups = fnm[2][1][2]
+                okc = cr is not None and any(x[0] == "agg" and x[2] == "None" for x in members(cr)) and \
+                    any(x[0] == "agg" and x[2] == "Some" for x in members(cr)) and any(u[0] == "field" and u[3] == "no_filename" for u in ups) and \
+                    any(y[0] == "call" and y[1].endswith("Path::to_str") for y in walk(fnm[2][0]))
+            ctx.check(okc, "CLI-FLAGS", b, "filename-unless-no-filename", loc,
+                      "file lines carry the file's own name unless -h/--no-filename is set; found %s" % show(fnm)[:200])
+    ctx.check(len(calls) == 2, "CLI-LINES", b, "two-line-loops", b.span, "one per-line loop for stdin and one for files expected; found %d" % len(calls))
+    # ---- pattern collection guards: -f lines and -p pieces are kept iff non-empty, unmodified
+    pushes = [s for s in S.keyed(lambda k: k == "alloc::vec::Vec::push") if s["args"][0][0] == "var"]
+    for s in pushes:
+        val = s["args"][1]
+        src = val[2][0] if (val[0] == "call" and val[1].endswith("to_string")) else val
+        guards = [g for g in S.calls if g["name"] == "is_empty" and core.same(g["args"][0], src)]
+        okg = len(guards) == 1
+        if okg:
+            sw = switches_on(S.root, lambda d: d[0] == "call" and d[3] == (b.path, guards[0]["bb"]))
+            sw += switches_on(S.root, lambda d: d[0] == "un" and d[1] == "Not" and d[2][0] == "call" and d[2][3] == (b.path, guards[0]["bb"]))
+            okg = len(sw) == 1
+            if okg:
+                sbi, stj, d = sw[0]
+                tt, ff = bool_arms(stj)
+                keep = ff if d[0] == "call" else tt
+                okg = b.edge_guards((sbi, keep), s["bb"])
+        modified = [x[1] for x in walk(src) if x[0] == "call" and isinstance(x[1], str) and x[1].startswith("core::str::") and
+                    x[1].split("::")[-1] in ("trim", "trim_start", "trim_end", "trim_matches", "to_lowercase", "to_uppercase", "strip_prefix", "strip_suffix")]
+        ctx.check(okg and not modified, "CLI-PATS", b, "pattern-kept-iff-nonempty", b.loc(s["bb"]),
+                  "a pattern line/piece is kept exactly when it is non-empty, and unmodified (no trimming); pushed %s" % show(val)[:160])
+
+
+def rule_cli_print(ctx, R):
+    """CLI-ORDER / CLI-BUF(width): prefixes precede the line in both branches; the highlight depth counter is wide
+    enough for any number of nested matches."""
+    cli = ctx.cli
+    if cli is None:
+        return
+    fo = [b for b in cli.bodies.values() if b.name == "find_and_output" and not b.is_closure]
+    if len(fo) != 1:
+        return
+    b = fo[0]
+    S = Sites(cli, b)
+    pnames = {b.local_names.get(i): i for i in range(1, b.arg_count + 1)}
+    if not all(n in pnames for n in ("filename", "line_no", "line", "stream")):
+        return
+    def writes_of(param):
+        out = []
+        for s in S.calls:
+            if s["name"] == "write_fmt" and m(Par(pnames["stream"]), s["args"][0]):
+                disp = [x for x in walk(s["args"][1]) if x[0] == "call" and x[1].endswith("Argument::new_display")]
+                if any(any(y[0] == "param" and y[1] == pnames[param] for y in walk(d)) for d in disp):
+                    out.append(s)
+        return out
+    wf, wn, wl = writes_of("filename"), writes_of("line_no"), writes_of("line")
+    ctx.check(len(wf) == 2 and len(wn) == 2 and len(wl) >= 3, "CLI-ORDER", b, "prefix-writes", b.span,
+              "both branches print the file-name prefix, the line-number prefix and text of the line; found %d/%d/%d writes" % (len(wf), len(wn), len(wl)))
+    for f in wf:
+        # the matching line-number write is the one reachable from it
+        ns = [n for n in wn if n["bb"] in b.reach(f["bb"])]
+        ls = [l for l in wl if l["bb"] in b.reach(f["bb"])]
+        ok = len(ns) == 1 and f["bb"] not in b.reach(ns[0]["bb"]) and ls and all(ns[0]["bb"] not in b.reach(l["bb"]) for l in ls)
+        ctx.check(ok, "CLI-ORDER", b, "filename-then-number-then-line", b.loc(f["bb"]),
+                  "the file-name prefix comes first, then the line number, then the line")
+        # prefixes are printed iff given: guarded by the Some arm of the respective Option parameter
+        for w, pname in ((f, "filename"),) + tuple((n, "line_no") for n in ns):
+            sw = switches_on(S.root, lambda d: d[0] == "discr" and m(Par(pnames[pname]), d[1]))
+            ctx.check(any(b.edge_guards((sbi, opt_arms(stj)[0]), w["bb"]) for sbi, stj, d in sw), "CLI-ORDER", b, "prefix-iff-some:" + pname, b.loc(w["bb"]),
+                      "the %s prefix is printed exactly when it was passed" % pname)
+    # depth counter width
+    for bi, si, st in b.stmts():
+        pass
+    bufs = [s for s in S.calls if s["key"] == "alloc::vec::from_elem" and any(x[0] == "call" and x[1] == "core::str::len" for x in walk(s["args"][1]))]
+    for s in bufs:
+        ety = s["c"].targ_s(0)
+        ctx.check(ety in ("isize", "i64", "i32", "usize", "u64", "u32", "i128", "u128"), "CLI-BUF", b, "depth-counter-width", b.loc(s["bb"]),
+                  "the per-byte nesting counter must not overflow for any number of overlapping matches (>= 32-bit integer); element type is %s" % ety)
